@@ -329,14 +329,14 @@ def build_classes(u):
     return b
 
 
-def make_app(b, proto, validator=None, polymorphic=False, in_kw=None):
+def make_app(b, proto, validator=None, polymorphic=False, in_kw=None, out_kw=None):
     """Application + ServerBase for one protocol configuration (both directions use the same protocol)"""
     from spyne import Application
     from spyne.server import ServerBase
     _APP_COUNTER[0] += 1
     app = Application([b.service], b.u['tns'], name='App%d' % _APP_COUNTER[0],
                       in_protocol=make_protocol(proto, validator, polymorphic, **(in_kw or {})),
-                      out_protocol=make_protocol(proto, None, polymorphic))
+                      out_protocol=make_protocol(proto, None, polymorphic, **(out_kw or {})))
     return app, ServerBase(app)
 
 
@@ -1321,8 +1321,9 @@ class RunResult(object):
         return {'ok': None}
 
 
-def run_request(b, server, data):
-    """the real pipeline: generate_contexts -> get_in_object -> get_out_object -> get_out_string"""
+def run_request(b, server, data, charset=None):
+    """the real pipeline: generate_contexts -> get_in_object -> get_out_object -> get_out_string; `data` is the request
+    as bytes or as the list of fragments (bytes or text) a transport delivers, `charset` what the transport knows about it"""
     from spyne import MethodContext
     import traceback
     r = RunResult()
@@ -1333,8 +1334,8 @@ def run_request(b, server, data):
     stage = 'generate_contexts'
     try:
         ictx = MethodContext(server, MethodContext.SERVER)
-        ictx.in_string = [data]
-        ctx, = server.generate_contexts(ictx)
+        ictx.in_string = list(data) if isinstance(data, (list, tuple)) else [data]
+        ctx, = server.generate_contexts(ictx, in_string_charset=charset) if charset else server.generate_contexts(ictx)
         if ctx.in_error is None:
             stage = 'get_in_object'
             server.get_in_object(ctx)
@@ -1410,6 +1411,7 @@ import SpyneModel.XmlAttr
 import SpyneModel.XmlSpelling
 import SpyneModel.XmlHistory
 import SpyneModel.XmlRegistry
+import SpyneModel.XmlOptions
 namespace SpyneModel.Generated
 open SpyneModel
 
@@ -1445,6 +1447,11 @@ def factsHist : Xml.FactsHist where
 def factsReg : Xml.FactsReg where
   subclassInBaseNs := %s
 
+def factsOpt : Xml.FactsOpt where
+  nilTakesDefault := %s
+  absentTakesDefault := %s
+  hrefsResolved := %s
+
 end SpyneModel.Generated
 ''' % (f['nilRule'], str(f['xsiTypeCheck']).lower(), str(f['childAttrGuard']).lower(),
        str(f['emptyStringText']).lower(), str(f['streamSameTree']).lower(), str(f['emptyBodyGuard']).lower(),
@@ -1452,7 +1459,8 @@ end SpyneModel.Generated
        str(f['kwFalsyKept']).lower(), str(f['childAttrsIgnored']).lower(), str(f['attrSoftChecked']).lower(),
        str(f['modifierChildSkipped']).lower(), str(f['dataTextUnicode']).lower(),
        str(f['commentsRemoved']).lower(), str(f['pisRemoved']).lower(), str(f['bytesJoinBeforeEncode']).lower(),
-       str(f['appendClearsMemo']).lower(), str(f['subclassInBaseNs']).lower())
+       str(f['appendClearsMemo']).lower(), str(f['subclassInBaseNs']).lower(),
+       str(f['nilTakesDefault']).lower(), str(f['absentTakesDefault']).lower(), str(f['hrefsResolved']).lower())
 
 
 def finish_built(b, app):
@@ -1679,6 +1687,43 @@ def measure_facts():
                                       'arguments, no return value)', 'expected': 'the body entry of the response is the empty '
                                       'element <e0Response/> (no xsi:nil: the schema does not declare it nillable)',
                                       'observed': repr(obs)}
+    # member defaults and the multi-reference spelling
+    from spyne import ComplexModel as _CM, Integer as _Int, Unicode as _Uni, ServiceBase as _SB2, rpc as _rpc2, Application as _App2
+    from spyne.server import ServerBase as _Srv
+    from spyne import MethodContext as _MC
+    OD = type(_CM)('OptD', (_CM,), {'__namespace__': 'urn:opt', '_type_info': [('n', _Int(default=5)), ('s', _Uni)]})
+    oseen = []
+    OSvc = type('OptSvc', (_SB2,), {'f': _rpc2(OD, _returns=_Int)(lambda ctx, v: oseen.append(v) or 1)})
+
+    def _orun(proto, body, **kw):
+        oapp = _App2([OSvc], 'urn:opt', in_protocol=make_protocol(proto, None, **kw), out_protocol=make_protocol(proto))
+        osrv = _Srv(oapp)
+        del oseen[:]
+        ic = _MC(osrv, _MC.SERVER)
+        ic.in_string = [body.encode()]
+        c, = osrv.generate_contexts(ic)
+        if c.in_error is None:
+            osrv.get_in_object(c)
+        if c.in_error is None:
+            osrv.get_out_object(c)
+        return (oseen[0].n, oseen[0].s) if oseen and oseen[0] is not None else repr(c.in_error or c.out_error)
+    NILA = 'xmlns:xsi="%s" xsi:nil="true"' % XSI
+    o1 = _orun('xml', '<f xmlns="urn:opt"><v><n %s/><s>x</s></v></f>' % NILA)
+    o2 = _orun('xml', '<f xmlns="urn:opt"><v><n %s/><s>x</s></v></f>' % NILA, replace_null_with_default=False)
+    o3 = _orun('xml', '<f xmlns="urn:opt"><v><s>x</s></v></f>')
+    f['nilTakesDefault'] = o1 == (5, 'x') and o2 == (None, 'x')
+    w['nilTakesDefault'] = {'proto': 'xml', 'validator': None, 'request': '<v><n xsi:nil="true"/><s>x</s></v> for OptD(n=Integer(default=5), s)',
+                            'expected': "n == 5; with replace_null_with_default=False n is None", 'observed': '%r / %r' % (o1, o2)}
+    f['absentTakesDefault'] = o3 == (5, 'x')
+    w['absentTakesDefault'] = {'proto': 'xml', 'validator': None, 'request': '<v><s>x</s></v> for OptD(n=Integer(default=5), s)',
+                               'expected': 'n == 5', 'observed': repr(o3)}
+    oh = {}
+    for proto, ens in (('soap11', NS_SOAP11), ('soap12', NS_SOAP12)):
+        oh[proto] = _orun(proto, '<e:Envelope xmlns:e="%s"><e:Body><f xmlns="urn:opt"><v href="#r1"/></f><multiRef id="r1">'
+                          '<n xmlns="urn:opt">7</n><s xmlns="urn:opt">m</s></multiRef></e:Body></e:Envelope>' % ens)
+    f['hrefsResolved'] = all(v == (7, 'm') for v in oh.values())
+    w['hrefsResolved'] = {'proto': 'soap11/soap12', 'validator': None, 'request': '<f><v href="#r1"/></f><multiRef id="r1"><n>7</n><s>m</s></multiRef>',
+                          'expected': "the function receives OptD(n=7, s='m')", 'observed': repr(oh)}
     # which subclasses an application registers
     from spyne import Application as _App, ServiceBase as _SB, rpc as _rpc, ComplexModel, Integer as _I
     mkc = type(ComplexModel)
@@ -1758,9 +1803,11 @@ GOOD = {'nilRule': 'xsdBoolean', 'xsiTypeCheck': True, 'childAttrGuard': True, '
         'emptyBodyGuard': True, 'outHeaderTupleOk': True, 'kwFalsyKept': True, 'streamSameTree': True,
         'childAttrsIgnored': True, 'attrSoftChecked': True, 'modifierChildSkipped': True, 'dataTextUnicode': True,
         'commentsRemoved': True, 'pisRemoved': True, 'bytesJoinBeforeEncode': True, 'appendClearsMemo': True,
-        'bareNothingIsEmptyElement': True, 'subclassInBaseNs': True}
+        'bareNothingIsEmptyElement': True, 'subclassInBaseNs': True,
+        'nilTakesDefault': True, 'absentTakesDefault': True, 'hrefsResolved': True}
 SWITCH_PROPS = {'C01': ('nilRule', 'emptyStringText', 'outHeaderTupleOk', 'kwFalsyKept', 'streamSameTree', 'childAttrsIgnored',
-                        'attrSoftChecked', 'dataTextUnicode', 'commentsRemoved', 'pisRemoved', 'bytesJoinBeforeEncode', 'bareNothingIsEmptyElement'), 'C04': ('xsiTypeCheck',), 'C05': ('nilRule', 'emptyStringText', 'attrSoftChecked', 'childAttrsIgnored'),
+                        'attrSoftChecked', 'dataTextUnicode', 'commentsRemoved', 'pisRemoved', 'bytesJoinBeforeEncode', 'bareNothingIsEmptyElement', 'nilTakesDefault', 'absentTakesDefault',
+                        'hrefsResolved'), 'C04': ('xsiTypeCheck',), 'C05': ('nilRule', 'emptyStringText', 'attrSoftChecked', 'childAttrsIgnored'),
                 'C10': ('childAttrGuard', 'emptyBodyGuard', 'modifierChildSkipped'), 'C16': ('streamSameTree', 'appendClearsMemo', 'subclassInBaseNs')}
 
 
@@ -2075,6 +2122,9 @@ def part_c01(ctx):
                                        in_ty, replay, queries, expect)
                         self_typed_check(ctx, 'c01', b, app, server, proto, validator, req_node, r, in_ty, replay,
                                          queries, expect)
+                        transport_forms(ctx, 'c01', b, app, server, proto, validator, wrap_envelope(proto, [req_node]), r,
+                                        replay)
+                        multiref_check(ctx, 'c01', b, app, server, proto, validator, req_node, r, replay)
                     # ---- T2: model vs implementation
                     parsed = parse_like_spyne(data, app.in_protocol)
                     queries.append(decode_query(b, proto, validator, node_of(parsed)))
@@ -2090,6 +2140,9 @@ def part_c01(ctx):
                             stream_check(ctx, b, app, r, u, out_ty, want_out, body, replay, 'c01', queries, expect, mq)
     chunked_bytes(ctx, queries, expect)
     c01_numbers(ctx)
+    c01_options(ctx, queries, expect)
+    c01_defaults_iterables(ctx)
+    c01_declaration_styles(ctx)
     answers = ctx.model(queries, driver='C01')
     for q, (op, impl, case), mod in zip(queries, expect, answers):
         if impl is None:
@@ -2287,6 +2340,86 @@ def self_typed_check(ctx, pid, b, app, server, proto, validator, req_node, plain
         expect.append(('decode', impl_decode_outcome(b, r), rp))
 
 
+def transport_forms(ctx, pid, b, app, server, proto, validator, node, plain, replay):
+    """T3: the same request document as a transport may hand it over — in several fragments, in another character
+    encoding (declared in the document; for SOAP also announced by the transport's charset), with a byte order mark —
+    is served alike: same call, same arguments"""
+    from lxml import etree
+    rng = ctx.rng
+    el = el_of(node)
+    forms = []
+    data = etree.tostring(el, encoding='utf-8', xml_declaration=True)
+    cuts = sorted(rng.randrange(len(data) + 1) for _ in range(rng.choice([1, 2, 3])))
+    forms.append(('fragments', [data[i:j] for i, j in zip([0] + cuts, cuts + [len(data)])], None))
+    enc = rng.choice(['utf-16', 'iso-8859-1', 'us-ascii', 'utf-32', 'utf-8-sig'])
+    if enc == 'utf-8-sig':
+        forms.append(('bom', b'\xef\xbb\xbf' + etree.tostring(el, encoding='utf-8', xml_declaration=rng.random() < 0.5), None))
+    else:
+        forms.append(('encoding:' + enc, etree.tostring(el, encoding=enc, xml_declaration=True), None))
+    if proto != 'xml':
+        # the transport announces the charset (Content-Type); the bytes are in it, with or without a declaration
+        cs = rng.choice(['utf-8', 'utf-16', 'iso-8859-1'])
+        if rng.random() < 0.5:
+            forms.append(('charset:%s:declared' % cs, etree.tostring(el, encoding=cs, xml_declaration=True), cs))
+        else:
+            forms.append(('charset:%s:bare' % cs, etree.tostring(el, encoding='unicode').encode(cs, 'xmlcharrefreplace'), cs))
+    tag, payload, charset = rng.choice(forms)
+
+    def calls_of(rr):
+        return [(n, [from_native(b, t, a) for (_, t), a in zip(b.methods[n][1]['fields'], args)]) for n, args in rr.calls]
+    r = run_request(b, server, payload, charset)
+    ctx.case({'p': proto, 'v': validator, 'transport-form': tag, 'h': hashlib_sha(b''.join(payload) if isinstance(payload, list) else payload)}, True)
+    ctx.hit('transport-form:' + tag.split(':')[0])
+    raw = b''.join(payload) if isinstance(payload, list) else payload
+    rp = dict(replay, request=raw.decode('utf-8', 'replace'), request_hex=raw.hex(), transport_form=tag, charset=charset,
+              fragments=[len(x) for x in payload] if isinstance(payload, list) else None)
+    if r.crash or r.fault or r.in_fault:
+        ctx.finding('%s:transport-form-rejected:%s:%s' % (pid, tag.split(':')[0], r.crash or r.in_fault or r.fault),
+                    'a request that is served as UTF-8 bytes is answered with %s when handed over as %s' % (
+                        r.crash or r.in_fault or r.fault, tag), rp)
+    elif calls_of(r) != calls_of(plain):
+        ctx.finding('%s:transport-form-args-differ:%s' % (pid, tag.split(':')[0]), 'handed over as %s, a request reaches the '
+                    'function with other values' % tag, dict(rp, received=calls_of(r), expected=calls_of(plain)))
+
+
+def multiref_check(ctx, pid, b, app, server, proto, validator, req_node, plain, replay):
+    """SOAP section-5 multi-reference spelling (Soap11 / Soap12 resolve `href="#id"` before reading): some elements of a
+    served request are moved out into `<multiRef id=…>` siblings of the request element and referenced -> same call,
+    same arguments. (The published schema knows no href / id attributes: not under the lxml validator.)"""
+    rng = ctx.rng
+    paths = [p_ for p_ in node_paths(req_node) if p_ and not any(k in ('id', 'href') for k, _ in node_at(req_node, p_)['a'])]
+    if proto == 'xml' or validator == 'lxml' or not paths:
+        return
+    mut = clone(req_node)
+    refs = []
+    chosen = []
+    for pth in rng.sample(paths, min(len(paths), rng.choice([1, 1, 2, 3]))):
+        if any(pth[:len(q)] == q or q[:len(pth)] == pth for q in chosen):
+            continue
+        chosen.append(pth)
+    for n, pth in enumerate(chosen):
+        e = node_at(mut, pth)
+        rid = 'id%d' % n
+        refs.append(mk_node(rng.choice(['', e['ns']]), 'multiRef', attrs=[['id', cps(rid)]] + e['a'], text=e['x'], children=e['c']))
+        e['a'], e['x'], e['c'] = [['href', cps('#' + rid)]], None, []
+    env = wrap_envelope(proto, [mut])
+    env['c'][0]['c'] += refs
+    data = to_bytes(env)
+    r = run_request(b, server, data)
+    ctx.case({'p': proto, 'v': validator, 'multiref': hashlib_sha(data)}, True)
+    ctx.hit('multiref:%d' % len(refs))
+    rp = dict(replay, request=data.decode('utf-8', 'replace'), multiref=len(refs))
+
+    def calls_of(rr):
+        return [(n, [from_native(b, t, a) for (_, t), a in zip(b.methods[n][1]['fields'], args)]) for n, args in rr.calls]
+    if r.crash or r.fault or r.in_fault:
+        ctx.finding('%s:multiref-rejected:%s' % (pid, r.crash or r.in_fault or r.fault), 'a request that is served is answered with '
+                    '%s when %d of its elements are written as multi-reference values' % (r.crash or r.in_fault or r.fault, len(refs)), rp)
+    elif calls_of(r) != calls_of(plain):
+        ctx.finding('%s:multiref-args-differ' % pid, 'written with multi-reference values, a request reaches the function with '
+                    'other values', dict(rp, received=calls_of(r), expected=calls_of(plain)))
+
+
 def spelling_check(ctx, pid, b, app, server, proto, validator, node, plain, in_ty, replay, queries, expect):
     """T3: an alternative spelling of a request that was served is served alike — same call, same arguments;
     T2: what the protocol's parser hands over is the model's parserView of what was written"""
@@ -2451,6 +2584,323 @@ def c01_numbers(ctx):
     ctx.cov['rule_numbers'] = ('T3 only (outside the Lean universe): Decimal with total_digits / fraction_digits (values that use '
                                'every digit, negative, with fraction), plain Decimal, Double (extremes, INF), customised Integer; '
                                'echo through {xml,soap11,soap12} x {None,soft,lxml}')
+
+
+# ====================================================================================== C01: protocol options, defaults, iterables
+OUT_OPTIONS = (('encoding=utf-16', {'encoding': 'utf-16'}), ('encoding=iso-8859-1', {'encoding': 'iso-8859-1'}),
+               ('encoding=us-ascii', {'encoding': 'us-ascii'}), ('xml_declaration=False', {'xml_declaration': False}),
+               ('pretty_print', {'pretty_print': True}), ('cleanup_namespaces=False', {'cleanup_namespaces': False}),
+               ('pretty+utf16', {'pretty_print': True, 'encoding': 'utf-16'}))
+IN_OPTIONS = (('defaults', {}), ('remove_blank_text', {'remove_blank_text': True}), ('huge_tree', {'huge_tree': True}),
+              ('ns_clean', {'ns_clean': True}), ('compact=False', {'compact': False}))
+
+
+def c01_options(ctx, queries, expect):
+    """the protocol constructors' options that do not change what a document denotes (response character encoding, XML
+    declaration, pretty printing, namespace cleanup; parser settings remove_blank_text / huge_tree / ns_clean / compact):
+    conformant calls as in part_c01, every option set on some protocol x validator"""
+    from lxml import etree
+    rng = ctx.rng
+    n_univ = 40 if ctx.thorough else 7
+    for ui in range(n_univ):
+        u = gen_universe(rng, 8000 + ui)
+        b = build_classes(u)
+        first = True
+        for mname in sorted(u_methods(u)):
+            call = None
+            for oi in range(len(OUT_OPTIONS) if ctx.thorough else 2):
+                oname, okw = rng.choice(OUT_OPTIONS)
+                iname, ikw = rng.choice(IN_OPTIONS)
+                proto, validator = rng.choice(PROTOS), rng.choice(VALIDATORS)
+                app, server = make_app(b, proto, validator, in_kw=ikw, out_kw=okw)
+                if first:
+                    finish_built(b, app)
+                    first = False
+                key, in_ty, out_ty = b.methods[mname]
+                call = call or gen_call(rng, b, mname)
+                if call is None:
+                    break
+                args, rets = call
+                inv, outv = msg_val(in_ty, args), msg_val(out_ty, rets)
+                if validator == 'soft' and empty_bytes_nn(in_ty, inv):
+                    continue
+                set_return(b, mname, out_ty, rets)
+                data = to_bytes(wrap_envelope(proto, [ref_encode_one(b, in_ty, inv, u['tns'], mname, u['tns'])]))
+                r = run_request(b, server, data)
+                ctx.case({'p': proto, 'v': validator, 'opt': [oname, iname], 'in': inv, 'out': outv}, True)
+                ctx.hit('option:' + oname)
+                ctx.hit('option:' + iname)
+                rp = {'kind': 'c01', 'universe': u, 'proto': proto, 'validator': validator, 'method': mname, 'args': args,
+                      'rets': rets, 'request': data.decode('utf-8', 'replace'), 'in_kw': ikw, 'out_kw': okw}
+                want_args = [py_norm(t, v) for (_, t), v in zip(in_ty['fields'], args)]
+                want_out = py_norm_one(out_ty, outv)
+                if r.crash or r.fault or len(r.calls) != 1:
+                    ctx.finding('c01:option-not-served:%s+%s' % (oname, iname), 'a conformant request is not served (%s) by a '
+                                'protocol constructed with %s / %s' % (r.crash or r.fault or 'calls=%d' % len(r.calls), okw, ikw), rp)
+                    continue
+                got = [from_native(b, t, a) for (_, t), a in zip(in_ty['fields'], r.calls[0][1])]
+                if got != want_args:
+                    ctx.finding('c01:option-args-differ:%s' % iname, 'with in-protocol options %s the function receives other '
+                                'values' % ikw, dict(rp, received=got, expected=want_args))
+                try:
+                    root = etree.fromstring(r.out)
+                    body = unwrap_envelope(proto, root)
+                    dec = ref_decode_one(b, out_ty, body, u['tns'], u['tns'])
+                except (RefError, etree.XMLSyntaxError) as e:
+                    dec = {'undecodable': str(e)}
+                if dec != want_out:
+                    ctx.finding('c01:option-response-differs:%s' % oname, 'with out-protocol options %s the response does not '
+                                'denote the returned value' % okw, dict(rp, decoded=dec, expected=want_out,
+                                                                        response=r.out.decode('latin-1')))
+                decl = r.out.lstrip()[:6] == b'<?xml ' or r.out[:2] in (b'\xff\xfe', b'\xfe\xff')
+                if okw.get('xml_declaration') is False and r.out.lstrip()[:5] == b'<?xml':
+                    ctx.finding('c01:option-ignored:xml_declaration', 'xml_declaration=False, yet the response starts with one', rp)
+                enc = okw.get('encoding')
+                if enc and enc != 'utf-16':
+                    try:
+                        r.out.decode(enc)
+                    except UnicodeDecodeError:
+                        ctx.finding('c01:option-ignored:encoding', 'the response is not %s text' % enc, rp)
+                if enc == 'utf-16' and r.out[:2] not in (b'\xff\xfe', b'\xfe\xff'):
+                    ctx.finding('c01:option-ignored:encoding', 'the response is not UTF-16 text', rp)
+
+
+def u_methods(u):
+    return [m['name'] for m in u['methods']]
+
+
+def c01_defaults_iterables(ctx):
+    """T3 only (no counterpart in the shared vocabulary): members with `default=`, the protocol option
+    replace_null_with_default, Iterable(T) arguments / generator functions, class-typed return values given as dict /
+    list / tuple (get_serialization_instance)"""
+    from lxml import etree
+    from spyne import Application, ServiceBase, rpc, ComplexModel, Integer, Unicode, Array, Iterable, MethodContext
+    from spyne.server import ServerBase
+    mk = type(ComplexModel)
+    seen = []
+    D = mk('DfItem', (ComplexModel,), {'__namespace__': 'urn:df', '_type_info': [
+        ('n', Integer(default=5)), ('s', Unicode(default='dflt')), ('plain', Integer), ('req', Integer(min_occurs=1, default=9, nillable=True))]})
+    P = mk('DfPair', (ComplexModel,), {'__namespace__': 'urn:df', '_type_info': [('a', Integer), ('b', Unicode), ('c', Array(Integer))]})
+    rets = {}
+
+    def take(ctx, v, k):
+        seen.append(('take', v, k))
+        return v
+
+    def gen(ctx, n):
+        seen.append(('gen', n))
+        for i in range(n or 0):
+            yield i * i
+
+    def it(ctx, xs):
+        xs = list(xs) if xs is not None else None
+        seen.append(('it', xs))
+        return iter(xs or [])
+
+    def pair(ctx, form):
+        seen.append(('pair', form))
+        return rets[form]
+    S = type('DfSvc', (ServiceBase,), {
+        'take': rpc(D, Integer(default=3), _returns=D)(take),
+        'gen': rpc(Integer, _returns=Iterable(Integer))(gen),
+        'it': rpc(Iterable(Unicode), _returns=Iterable(Unicode))(it),
+        'pair': rpc(Unicode, _returns=P)(pair)})
+    rets.update({'instance': P(a=1, b='x', c=[1, 2]), 'dict': {'a': 1, 'b': 'x', 'c': [1, 2]}, 'list': [1, 'x', [1, 2]],
+                 'tuple': (1, 'x', [1, 2]), 'short-list': [1], 'partial-dict': {'b': 'x'}})
+    NIL = 'xmlns:xsi="%s" xsi:nil="true"' % XSI
+
+    def run(proto, validator, body, **in_kw):
+        app = Application([S], 'urn:df', in_protocol=make_protocol(proto, validator, **in_kw), out_protocol=make_protocol(proto))
+        server = ServerBase(app)
+        data = body.encode() if proto == 'xml' else ('<e:Envelope xmlns:e="%s"><e:Body>%s</e:Body></e:Envelope>' % (
+            NS_SOAP11 if proto == 'soap11' else NS_SOAP12, body)).encode()
+        del seen[:]
+        ictx = MethodContext(server, MethodContext.SERVER)
+        ictx.in_string = [data]
+        c, = server.generate_contexts(ictx)
+        if c.in_error is None:
+            server.get_in_object(c)
+        if c.in_error is None:
+            server.get_out_object(c)
+        err = c.in_error or c.out_error
+        server.get_out_string(c)
+        out = b''.join(c.out_string)
+        return list(seen), (err.faultcode if err is not None else None), unwrap_envelope(proto, etree.fromstring(out)), data, out
+
+    def report(tag, what, proto, validator, data, out):
+        ctx.finding('c01:%s' % tag, what + ' (%s, validator=%s)' % (proto, validator),
+                    {'kind': 'probe', 'probe': 'c01-defaults', 'proto': proto, 'validator': validator, 'case': tag,
+                     'request': data.decode(), 'response': out.decode('utf-8', 'replace')})
+
+    def kids(el):
+        return [(etree.QName(c).localname, c.text, c.get(XSI_NIL)) for c in el]
+    for proto in PROTOS:
+        for validator in (None, 'soft'):
+            # ---- defaults: a member that is left out / sent as xsi:nil arrives as its declared default; a value stays
+            cases = (
+                ('default:absent', '<d:take xmlns:d="urn:df"><d:v><d:req>1</d:req></d:v></d:take>', {},
+                 dict(n=5, s='dflt', plain=None, req=1), 3),
+                ('default:nil', '<d:take xmlns:d="urn:df"><d:v><d:n %s/><d:s %s/><d:plain %s/><d:req %s/></d:v><d:k %s/></d:take>' % (
+                    (NIL,) * 5), {}, dict(n=5, s='dflt', plain=None, req=9), 3),
+                ('default:nil:replace_null_with_default=False',
+                 '<d:take xmlns:d="urn:df"><d:v><d:n %s/><d:s %s/><d:plain %s/><d:req %s/></d:v><d:k %s/></d:take>' % ((NIL,) * 5),
+                 {'replace_null_with_default': False}, dict(n=None, s=None, plain=None, req=None), None),
+                ('default:value', '<d:take xmlns:d="urn:df"><d:v><d:n>0</d:n><d:s>x</d:s><d:plain>2</d:plain><d:req>0</d:req></d:v>'
+                 '<d:k>0</d:k></d:take>', {}, dict(n=0, s='x', plain=2, req=0), 0))
+            for tag, body, in_kw, want, want_k in cases:
+                got, fault, resp, data, out = run(proto, validator, body, **in_kw)
+                ctx.case({'probe': 'defaults', 'case': tag, 'p': proto, 'v': validator}, True)
+                ctx.hit('defaults:' + tag)
+                if fault or len(got) != 1:
+                    report(tag + ':not-served', 'fault %s' % fault, proto, validator, data, out)
+                    continue
+                v, k = got[0][1], got[0][2]
+                have = {f: getattr(v, f, None) for f in want} if v is not None else None
+                if have != want or k != want_k:
+                    report(tag, 'the function received %r, k=%r; expected %r, k=%r' % (have, k, want, want_k), proto, validator, data, out)
+            # ---- generator function, Iterable argument
+            got, fault, resp, data, out = run(proto, validator, '<d:gen xmlns:d="urn:df"><d:n>4</d:n></d:gen>')
+            ctx.case({'probe': 'iterable', 'case': 'gen', 'p': proto, 'v': validator}, True)
+            vals = [c.text for c in resp[0]] if len(resp) else None
+            if fault or vals != ['0', '1', '4', '9']:
+                report('iterable:generator-result', 'a generator function declared _returns=Iterable(Integer) yields 0,1,4,9; the '
+                       'response carries %r (fault %s)' % (vals, fault), proto, validator, data, out)
+            body = '<d:it xmlns:d="urn:df"><d:xs><d:string>a</d:string><d:string/><d:string>c &amp; d</d:string></d:xs></d:it>'
+            got, fault, resp, data, out = run(proto, validator, body)
+            ctx.case({'probe': 'iterable', 'case': 'arg', 'p': proto, 'v': validator}, True)
+            vals = [c.text or '' for c in resp[0]] if len(resp) else None
+            if fault or got != [('it', ['a', '', 'c & d'])] or vals != ['a', '', 'c & d']:
+                report('iterable:argument', 'Iterable(Unicode) argument a, "", "c & d": received %r, echoed %r (fault %s)' % (
+                    got, vals, fault), proto, validator, data, out)
+            # ---- class-typed results given as dict / list / tuple
+            for form, want in (('instance', [('a', '1', None), ('b', 'x', None), ('c', None, None)]),
+                               ('dict', [('a', '1', None), ('b', 'x', None), ('c', None, None)]),
+                               ('list', [('a', '1', None), ('b', 'x', None), ('c', None, None)]),
+                               ('tuple', [('a', '1', None), ('b', 'x', None), ('c', None, None)]),
+                               ('short-list', [('a', '1', None)]), ('partial-dict', [('b', 'x', None)])):
+                got, fault, resp, data, out = run(proto, validator, '<d:pair xmlns:d="urn:df"><d:form>%s</d:form></d:pair>' % form)
+                ctx.case({'probe': 'serialization-instance', 'case': form, 'p': proto, 'v': validator}, True)
+                ctx.hit('serialization-instance:' + form)
+                have = kids(resp[0]) if len(resp) else None
+                items = [c.text for c in resp[0][2]] if have and len(resp[0]) > 2 else None
+                if fault or have != want or (len(want) == 3 and items != ['1', '2']):
+                    report('result-as-%s' % form, 'a DfPair result given as %s is written as %r / items %r (fault %s)' % (
+                        form, have, items, fault), proto, validator, data, out)
+    ctx.cov['rule_defaults_iterables'] = ('T3 only: members with default= (absent / nil / value; replace_null_with_default on and '
+                                          'off), generator functions and Iterable(T) arguments, class-typed results given as '
+                                          'instance / dict / list / tuple; {xml,soap11,soap12} x {None,soft}')
+
+
+def c01_declaration_styles(ctx):
+    """T3 only: the ways a class can be DECLARED do not matter to what is transmitted — members as class attributes
+    (declaration order), a mixin, native Python types as member types, members renamed / re-namespaced with sub_name /
+    sub_ns (read back through `_type_info_alt`), Array with member_name, Array(wrapped=False), an array of a customised
+    class, SelfReference (a recursive type), child_attrs customisation; echo through every protocol x validator"""
+    from lxml import etree
+    from spyne import Application, ServiceBase, rpc, ComplexModel, Integer, Unicode, Array, MethodContext
+    from spyne.model.complex import SelfReference
+    from spyne.server import ServerBase
+    _HIST_COUNTER[0] += 1
+    n = _HIST_COUNTER[0]
+    NS, ONS = 'urn:ds%d' % n, 'urn:dsother%d' % n
+    Mx = type(ComplexModel)('DsMx%d' % n, (ComplexModel,), {'__namespace__': NS, '__mixin__': True, 'mx': Integer})
+    Inner = type(ComplexModel)('DsInner%d' % n, (ComplexModel,), {'__namespace__': NS, 'p': Integer})
+    body = {'__namespace__': NS}
+    for k, t in (('a', Integer), ('b', Unicode), ('n', int), ('t', str), ('f', float), ('flag', bool),
+                 ('r', Integer(sub_name='Renamed')), ('q', Unicode(sub_ns=ONS)), ('rq', Unicode(sub_name='Both', sub_ns=ONS)),
+                 ('items', Array(Integer, member_name='it')), ('flat', Array(Unicode, wrapped=False)),
+                 ('inners', Array(Inner.customize(nillable=False))), ('nxt', SelfReference)):
+        body[k] = t
+    K = type(ComplexModel)('DsK%d' % n, (Mx, ComplexModel), body)
+    KC = K.customize(child_attrs=dict(a=dict(min_occurs=1), b=dict(max_len=10)))
+    seen = []
+
+    def echo(ctx, v):
+        seen.append(v)
+        return v
+
+    def echoc(ctx, v):
+        seen.append(v)
+        return v
+    S = type('DsSvc%d' % n, (ServiceBase,), {'echo': rpc(K, _returns=K)(echo), 'echoc': rpc(KC, _returns=KC)(echoc)})
+    order = list(K.get_flat_type_info(K).keys())
+    if order != ['mx', 'a', 'b', 'n', 't', 'f', 'flag', 'r', 'q', 'rq', 'items', 'flat', 'inners', 'nxt']:
+        ctx.finding('c01:declaration:member-order', 'members declared as class attributes after a mixin: flat order %r' % order,
+                    {'kind': 'probe', 'probe': 'c01-declaration'})
+        return
+    inner_name = Inner.get_type_name()
+
+    def tree(tag):
+        """what an instance with every member set looks like under element `tag` (hand-written expectation)"""
+        lv = lambda ns_, nm, txt: mk_node(ns_, nm, text=cps(txt))
+        deep = mk_node(NS, 'nxt', children=[lv(NS, 'b', 'deep')])
+        return mk_node(NS, tag, children=[
+            lv(NS, 'mx', '1'), lv(NS, 'a', '2'), lv(NS, 'b', 'bé'), lv(NS, 'n', '3'), lv(NS, 't', 't'), lv(NS, 'f', '1.5'),
+            lv(NS, 'flag', 'true'), lv(NS, 'Renamed', '4'), lv(ONS, 'q', 'q'), lv(ONS, 'Both', 'rq'),
+            mk_node(NS, 'items', children=[lv(NS, 'it', '1'), lv(NS, 'it', '2')]), lv(NS, 'flat', 'x'), lv(NS, 'flat', 'y'),
+            mk_node(NS, 'inners', children=[mk_node(NS, inner_name, children=[lv(NS, 'p', '1')])]),
+            mk_node(NS, 'nxt', children=[lv(NS, 'a', '9'), deep])])
+
+    def flat_of(o, depth=0):
+        if o is None:
+            return None
+        return [getattr(o, 'mx', None), o.a, o.b, o.n, o.t, o.f, o.flag, o.r, o.q, o.rq, o.items, o.flat,
+                [i.p for i in o.inners] if o.inners is not None else None, flat_of(o.nxt, depth + 1) if depth < 4 else '...']
+    want = [1, 2, 'bé', 3, 't', 1.5, True, 4, 'q', 'rq', [1, 2], ['x', 'y'], [1],
+            [None, 9, None, None, None, None, None, None, None, None, None, None, None,
+             [None, None, 'deep', None, None, None, None, None, None, None, None, None, None, None]]]
+    for proto in PROTOS:
+        for validator in VALIDATORS:
+            for meth in ('echo', 'echoc'):
+                app = Application([S], NS, in_protocol=make_protocol(proto, validator), out_protocol=make_protocol(proto))
+                server = ServerBase(app)
+                data = to_bytes(wrap_envelope(proto, [mk_node(NS, meth, children=[tree('v')])]))
+                del seen[:]
+                rp = {'kind': 'probe', 'probe': 'c01-declaration', 'proto': proto, 'validator': validator, 'method': meth,
+                      'request': data.decode('utf-8')}
+                ctx.case({'probe': 'declaration', 'p': proto, 'v': validator, 'm': meth}, True)
+                ctx.hit('declaration:%s' % meth)
+                try:
+                    ictx = MethodContext(server, MethodContext.SERVER)
+                    ictx.in_string = [data]
+                    c, = server.generate_contexts(ictx)
+                    if c.in_error is None:
+                        server.get_in_object(c)
+                    if c.in_error is None:
+                        server.get_out_object(c)
+                    err = c.in_error or c.out_error
+                    server.get_out_string(c)
+                    out = b''.join(c.out_string)
+                except Exception as e:      # noqa: the finding
+                    ctx.finding('c01:declaration:crash', 'echo of a class declared with mixin / native types / sub_name / sub_ns / '
+                                'SelfReference raises %s: %s' % (type(e).__name__, e), rp)
+                    continue
+                if err is not None and validator == 'lxml' and err.faultcode.endswith('SchemaValidationError') and \
+                        ONS in (err.faultstring.decode('utf-8', 'replace') if isinstance(err.faultstring, bytes) else (err.faultstring or '')):
+                    ctx.finding('c01:declaration:sub_ns-not-in-schema', 'the schema spyne publishes (and validates requests with) '
+                                'declares a member customised with sub_ns in the namespace of the class, while XmlDocument writes '
+                                'and reads it in sub_ns: what the protocol itself writes is refused by validator=lxml',
+                                dict(rp, response=out.decode('utf-8', 'replace')))
+                    continue
+                if err is not None or len(seen) != 1:
+                    ctx.finding('c01:declaration:not-served:%s' % validator, 'the conformant request is answered with %s' % (
+                        err.faultcode if err is not None else 'calls=%d' % len(seen)), dict(rp, response=out.decode('utf-8', 'replace')))
+                    continue
+                if flat_of(seen[0]) != want:
+                    ctx.finding('c01:declaration:args-differ', 'the function received %r' % (flat_of(seen[0]),), rp)
+                resp = unwrap_envelope(proto, etree.fromstring(out))
+                got = node_of(resp[0]) if len(resp) else None
+                exp = tree(meth + 'Result')
+                if got is None or strip_attrs(got) != exp:
+                    ctx.finding('c01:declaration:response-differs', 'the response is not the expected document',
+                                dict(rp, response=out.decode('utf-8', 'replace'), expected=exp))
+    ctx.cov['rule_declaration_styles'] = ('T3 only: one class declared through class attributes + mixin + native types + '
+                                          'sub_name / sub_ns + Array(member_name) + Array(wrapped=False) + array of a customised '
+                                          'class + SelfReference (+ a child_attrs variant), echoed through 3 protocols x 3 validators')
+
+
+def strip_attrs(node):
+    return dict(node, a=[], c=[strip_attrs(c) for c in node['c']])
 
 
 # ====================================================================================== helpers shared by the parts
@@ -2772,6 +3222,29 @@ def replay(ctx, obj):
     kind = obj.get('kind')
     if kind == 'c04seq':
         return replay_c04seq(ctx, obj)
+    if kind == 'probe' and obj.get('probe') in ('c01-declaration', 'c01-defaults'):
+        class _Rec(object):
+            def __init__(self):
+                self.found, self.cov, self.thorough = [], {}, False
+
+            def case(self, *a):
+                pass
+
+            def hit(self, *a):
+                pass
+
+            def finding(self, fid, what, rp):
+                self.found.append((fid, what, rp))
+        c = _Rec()
+        (c01_declaration_styles if obj['probe'] == 'c01-declaration' else c01_defaults_iterables)(c)
+        want = obj.get('finding_id')
+        hits = [x for x in c.found if want is None or x[0] == want]
+        for fid, what, rp in hits[:6]:
+            print(fid, '|', what[:400])
+            print('    request :', rp.get('request', '')[:600])
+            print('    response:', rp.get('response', '')[:600])
+        print('%d findings with this id (%d in all)' % (len(hits), len(c.found)))
+        return 1 if hits else 0
     if kind == 'probe' and obj.get('probe') == 'c16-registry':
         b = build_classes(obj['universe'])
         app, server = make_app(b, 'xml', None, True)
@@ -2884,7 +3357,15 @@ def replay(ctx, obj):
     data = obj['request'].encode('utf-8', 'surrogatepass') if isinstance(obj['request'], str) else bytes(obj['request'])
     if 'request_hex' in obj:
         data = bytes.fromhex(obj['request_hex'])
-    r = run_request(b, server, data)
+    if obj.get('fragments'):
+        parts, pos = [], 0
+        for n in obj['fragments']:
+            parts.append(data[pos:pos + n])
+            pos += n
+        data_in = parts
+    else:
+        data_in = data
+    r = run_request(b, server, data_in, obj.get('charset'))
     print('proto=%s validator=%s polymorphic=%s' % (obj['proto'], obj.get('validator'), poly))
     print('request :', data[:2000])
     print('outcome : crash=%s (%s) fault=%s calls=%d' % (r.crash, r.tb, r.fault, len(r.calls)))
